@@ -416,6 +416,20 @@ func init() {
 				{"unreadable config path", "", "config=does/not/exist.yaml,types=" + strings.Join(v.Cfg.Types, "+")},
 				{"unparsable YAML", "types: [unterminated\n  - : :\n", ""},
 			}
+			// well-formed YAML whose values have the wrong shape for the option ("cannot be parsed" into the configuration)
+			typed := ir.Clone(v.Cfg)
+			typed.ExcludeFields, typed.ComputedFields, typed.RequiredFields, typed.SensitiveFields = nil, nil, nil, nil
+			ty := typed.YAML(nil, nil)
+			for _, bad := range []struct{ name, tail string }{
+				{"a mapping as element of exclude_fields", "exclude_fields:\n  - Zz.Field: true\n"},
+				{"a mapping inside the flow list of computed_fields", "computed_fields: [Zz.A, {Zz.B: yes}]\n"},
+				{"a nested sequence as element of required_fields", "required_fields:\n  - - Zz.A\n"},
+				{"a scalar where sensitive_fields wants a list", "sensitive_fields: Zz.A\n"},
+			} {
+				if !strings.Contains(ty, strings.SplitN(bad.tail, ":", 2)[0]+":") {
+					fails = append(fails, struct{ name, yaml, param string }{"ill-typed YAML: " + bad.name, ty + bad.tail, ""})
+				}
+			}
 			for _, f := range fails {
 				var res *pipeline.PluginResult
 				if f.yaml != "" {
@@ -622,14 +636,15 @@ func msgOrder(f *ir.File) []string {
 // ---------------------------------------------------------------- C18
 
 type c18Case struct {
-	Target           string `json:"target"`         // selected type below which the bad field is injected
-	Host             string `json:"host"`           // message that receives the bad field
-	Kind             string `json:"kind"`           // no_time_type | no_duration_type | no_duration_type_cast | map_key | group
-	Cast             string `json:"cast,omitempty"` // no_duration_type_cast: time.Duration or the configured duration_custom_type
-	MapKey           string `json:"map_key"`        // for map_key
-	Card             string `json:"card"`           // cardinality of the bad field (time/duration)
-	Oneof            string `json:"oneof"`          // put the bad field into this oneof of the host ("" = none)
-	KeyForm          string `json:"key_form"`       // full | type : form of the exclude_fields entry
+	Target           string `json:"target"`              // selected type below which the bad field is injected
+	Host             string `json:"host"`                // message that receives the bad field
+	Kind             string `json:"kind"`                // no_time_type | no_duration_type | no_duration_type_cast | map_key | group
+	Cast             string `json:"cast,omitempty"`      // no_duration_type_cast: time.Duration or the configured duration_custom_type
+	FlagAlso         string `json:"flag_also,omitempty"` // the exclusion key is also listed in this flag list (flags of an excluded field mean nothing)
+	MapKey           string `json:"map_key"`             // for map_key
+	Card             string `json:"card"`                // cardinality of the bad field (time/duration)
+	Oneof            string `json:"oneof"`               // put the bad field into this oneof of the host ("" = none)
+	KeyForm          string `json:"key_form"`            // full | type : form of the exclude_fields entry
 	Depth            int    `json:"depth"`
 	BehindCollection bool   `json:"behind_collection"`
 }
@@ -727,6 +742,7 @@ func init() {
 				}
 			}
 			c.KeyForm = rapid.SampledFrom([]string{"type", "full"}).Draw(t, "keyform")
+			c.FlagAlso = rapid.SampledFrom([]string{"", "", "", "required_fields", "computed_fields", "sensitive_fields"}).Draw(t, "flagalso")
 			setExtra(rp, "c18", c)
 			return rp
 		},
@@ -852,6 +868,14 @@ func init() {
 				}
 			}
 			ex.ExcludeFields = append(ex.ExcludeFields, key)
+			switch c.FlagAlso {
+			case "required_fields":
+				ex.RequiredFields = append(ex.RequiredFields, key)
+			case "computed_fields":
+				ex.ComputedFields = append(ex.ComputedFields, key)
+			case "sensitive_fields":
+				ex.SensitiveFields = append(ex.SensitiveFields, key)
+			}
 			res2, err := runReq(tools, dir, desc.BuildFile(bad), ex.YAML(nil, nil), "", nil, nil)
 			if err != nil {
 				return "", err
